@@ -134,7 +134,8 @@ package encrypt
 
 // ---- the per-event walk (thin contracts: locks, failure, who may mutate) ----
 // The reflection walk itself (which fields are reached) is outside the fragment: these contracts state only what
-// Process relies on; filterField/filterTaggable/processUnfiltered are assumed (trusted), see DESIGN.md.
+// Process relies on; filterField/filterTaggable are assumed (trusted), processUnfiltered is verified against a
+// thin contract (locks, failure propagation, tracker identity) with modular loops, see DESIGN.md.
 
 //@ func (*Filter).ignore(v) (ig)
 //@   assigns nothing
@@ -151,33 +152,68 @@ package encrypt
 //@   loop 1 invariant oldobjects("map:map[DataClassification]FilterOperation") && held(ef.l) == 1 && fresh(cp) && cp != nil && (forall c DataClassification :: ((c in cp) == visited(c)) && (visited(c) ==> (c in ranged()) && (c in ef.FilterOperationOverrides) && cp[c] == ef.FilterOperationOverrides[c]))
 
 //@ func newTrackedMaps(tm) (maps, err)
-//@   assigns held, lockacq, elem:any, map:map[uintptr]*tMap
-//@   ensures len(tm) == 0 ==> err == nil && maps != nil && fresh(maps) && held(maps.l) == 0 && ev_n == old(ev_n) && oldlocks()
-//@   loop 1 invariant maps != nil && fresh(maps) && held(maps.l) == 0 && (len(tm) == 0 ==> ev_n == old(ev_n) && oldlocks())
+//@   assigns held, lockacq, elem:any, map:map[uintptr]*tMap, trackedMaps.tracked
+//@   ensures no-arguments-cannot-fail: len(tm) == 0 ==> err == nil && unchanged("lockacq")
+//@   ensures a-new-tracker: err == nil ==> maps != nil && fresh(maps) && held(maps.l) == 0
+//@   ensures other-locks-untouched: oldlocks("held")
+//@   ensures never-mutates: ev_n == old(ev_n)
+//@   loop 1 invariant maps != nil && fresh(maps) && held(maps.l) == 0 && ev_n == old(ev_n) && oldlocks("held") && (len(tm) == 0 ==> unchanged("lockacq"))
 
 //@ func (*Filter).filterField(ctx, v, filterOverrides, tm, opt) (err)
-//@   trusted
-//@   requires ef != nil && held(ef.l) == 0
-//@   assigns ev, ctxdone, elem:any, elem:uint8, held, lockacq, map:map[uintptr]*tMap, tMap.filtered, tMap.filteredFields, map:map[string]struct{}
+//@   requires ef != nil && held(ef.l) == 0 && tm != nil && held(tm.l) == 0
+//@   assigns ev, ctxdone, elem:any, elem:uint8, held, lockacq, map:map[uintptr]*tMap, tMap.filtered, tMap.filteredFields, map:map[string]struct{}, trackedMaps.tracked, map:map[DataClassification]FilterOperation, elem:string
+//@   ensures C09/any-field-that-cannot-be-filtered-fails-the-walk: err == nil ==> failedCalls("(*Filter).filterValue") == 0 && failedCalls("(*Filter).filterSlice") == 0 && failedCalls("(*Filter).filterTaggable") == 0 && failedCalls("(*Filter).filterField") == 0
 //@   ensures never-copies: events("sys:deepcopy") == old(events("sys:deepcopy"))
-//@   ensures locks-restored: unchanged("held")
-//@   ensures unlocked: held(ef.l) == 0
+//@   ensures locks-restored: oldlocks("held")
+//@   ensures unlocked: held(ef.l) == 0 && held(tm.l) == 0
+//@   atcall (*Filter).filterTaggable@1 C09/maps-met-below-are-collected-in-the-callers-tracker: callarg(4) == tm
+//@   atcall (*Filter).filterTaggable@2 C09/maps-met-below-are-collected-in-the-callers-tracker: callarg(4) == tm
+//@   atcall (*Filter).filterField@1 C09/maps-met-below-are-collected-in-the-callers-tracker: callarg(4) == tm
+//@   atcall (*Filter).filterField@2 C09/maps-met-below-are-collected-in-the-callers-tracker: callarg(4) == tm
+//@   atcall (*Filter).filterField@3 C09/maps-met-below-are-collected-in-the-callers-tracker: callarg(4) == tm
+//@   loop 1 modular
+//@   loop 2 modular
+//@   loop 3 modular
+//@   loop 1 invariant option-strip-bounds: 0 <= i && 0 <= removeIdx && removeIdx < len(opt)
+//@   loop 1 invariant ef != nil && tm == entry(tm) && tm != nil && held(ef.l) == 0 && held(tm.l) == 0 && oldlocks("held") && events("sys:deepcopy") == old(events("sys:deepcopy")) && failedCalls("(*Filter).filterValue") == 0 && failedCalls("(*Filter).filterSlice") == 0 && failedCalls("(*Filter).filterTaggable") == 0 && failedCalls("(*Filter).filterField") == 0
+//@   loop 2 invariant ef != nil && tm == entry(tm) && tm != nil && held(ef.l) == 0 && held(tm.l) == 0 && oldlocks("held") && events("sys:deepcopy") == old(events("sys:deepcopy")) && failedCalls("(*Filter).filterValue") == 0 && failedCalls("(*Filter).filterSlice") == 0 && failedCalls("(*Filter).filterTaggable") == 0 && failedCalls("(*Filter).filterField") == 0
+//@   loop 3 invariant ef != nil && tm == entry(tm) && tm != nil && held(ef.l) == 0 && held(tm.l) == 0 && oldlocks("held") && events("sys:deepcopy") == old(events("sys:deepcopy")) && failedCalls("(*Filter).filterValue") == 0 && failedCalls("(*Filter).filterSlice") == 0 && failedCalls("(*Filter).filterTaggable") == 0 && failedCalls("(*Filter).filterField") == 0
+
+//@ func (*trackedMaps).trackTaggable(taggable, pointer) (err)
+//@   trusted
+//@   requires maps != nil && held(maps.l) == 0
+//@   assigns held, lockacq, map:map[uintptr]*tMap, trackedMaps.tracked, tMap.filteredFields, map:map[string]struct{}, elem:any, elem:string
+//@   ensures never-mutates: ev_n == old(ev_n)
+//@   ensures locks-restored: oldlocks("held") && held(maps.l) == 0
+
+//@ iface Taggable.Tags() (tags, err)
+//@   assigns nothing
 
 //@ func (*Filter).filterTaggable(ctx, t, filterOverrides, tm, opt) (err)
-//@   trusted
-//@   requires ef != nil && held(ef.l) == 0
-//@   assigns ev, ctxdone, elem:any, elem:uint8, held, lockacq, map:map[uintptr]*tMap, tMap.filtered, tMap.filteredFields, map:map[string]struct{}
+//@   requires ef != nil && held(ef.l) == 0 && tm != nil && held(tm.l) == 0
+//@   assigns ev, ctxdone, elem:any, elem:uint8, held, lockacq, map:map[uintptr]*tMap, tMap.filtered, tMap.filteredFields, map:map[string]struct{}, trackedMaps.tracked, map:map[DataClassification]FilterOperation, elem:string
+//@   ensures C09/any-tagged-value-that-cannot-be-filtered-fails-the-walk: err == nil ==> failedCalls("(*Filter).filterValue") == 0 && failedCalls("(*trackedMaps).trackTaggable") == 0 && failedCalls("encrypt.Taggable.Tags") == 0
 //@   ensures never-copies: events("sys:deepcopy") == old(events("sys:deepcopy"))
-//@   ensures locks-restored: unchanged("held")
-//@   ensures unlocked: held(ef.l) == 0
+//@   ensures locks-restored: oldlocks("held")
+//@   ensures unlocked: held(ef.l) == 0 && held(tm.l) == 0
+//@   loop 1 modular
+//@   loop 1 invariant ef != nil && tm == entry(tm) && tm != nil && held(ef.l) == 0 && held(tm.l) == 0 && oldlocks("held") && events("sys:deepcopy") == old(events("sys:deepcopy")) && failedCalls("(*Filter).filterValue") == 0 && failedCalls("(*trackedMaps).trackTaggable") == 0 && failedCalls("encrypt.Taggable.Tags") == 0
 
 //@ func (*trackedMaps).processUnfiltered(ctx, ef, filterOverrides, opt) (err)
-//@   trusted
-//@   requires ef != nil && held(ef.l) == 0
-//@   assigns ev, ctxdone, elem:any, elem:uint8, held, lockacq, map:map[uintptr]*tMap, tMap.filtered, tMap.filteredFields, map:map[string]struct{}
+//@   requires maps != nil && (ef != nil ==> held(ef.l) == 0) && held(maps.l) == 0
+//@   assigns ev, ctxdone, elem:any, elem:uint8, held, lockacq, map:map[uintptr]*tMap, tMap.filtered, tMap.filteredFields, map:map[string]struct{}, trackedMaps.tracked, elem:*tMap
+//@   ensures C09/a-missing-filter-is-an-error: ef == nil ==> err != nil
+//@   ensures C09/any-value-that-cannot-be-filtered-fails-the-sweep: err == nil ==> failedCalls("(*Filter).filterValue") == 0 && failedCalls("(*Filter).filterSlice") == 0 && failedCalls("(*Filter).filterField") == 0 && failedCalls("(*trackedMaps).processUnfiltered") == 0 && failedCalls("newTrackedMaps") == 0
 //@   ensures never-copies: events("sys:deepcopy") == old(events("sys:deepcopy"))
-//@   ensures locks-restored: unchanged("held")
-//@   ensures unlocked: held(ef.l) == 0
+//@   ensures locks-restored: oldlocks("held")
+//@   ensures unlocked: ef != nil ==> held(ef.l) == 0
+//@   atcall (*trackedMaps).processUnfiltered@2 C09/maps-found-inside-a-struct-value-are-swept-with-the-tracker-that-collected-them: callarg(0) == prevcallarg("(*Filter).filterField", 4)
+//@   loop 1 modular
+//@   loop 2 modular
+//@   loop 3 modular
+//@   loop 1 invariant ef != nil && maps != nil && held(ef.l) == 0 && oldlocks("held") && events("sys:deepcopy") == old(events("sys:deepcopy")) && failedCalls("(*Filter).filterValue") == 0 && failedCalls("(*Filter).filterSlice") == 0 && failedCalls("(*Filter).filterField") == 0 && failedCalls("(*trackedMaps).processUnfiltered") == 0 && failedCalls("newTrackedMaps") == 0
+//@   loop 2 invariant ef != nil && maps != nil && held(ef.l) == 0 && oldlocks("held") && events("sys:deepcopy") == old(events("sys:deepcopy")) && failedCalls("(*Filter).filterValue") == 0 && failedCalls("(*Filter).filterSlice") == 0 && failedCalls("(*Filter).filterField") == 0 && failedCalls("(*trackedMaps).processUnfiltered") == 0 && failedCalls("newTrackedMaps") == 0
+//@   loop 3 invariant ef != nil && maps != nil && held(ef.l) == 0 && oldlocks("held") && events("sys:deepcopy") == old(events("sys:deepcopy")) && failedCalls("(*Filter).filterValue") == 0 && failedCalls("(*Filter).filterSlice") == 0 && failedCalls("(*Filter).filterField") == 0 && failedCalls("(*trackedMaps).processUnfiltered") == 0 && failedCalls("newTrackedMaps") == 0
 
 //@ func (*trackedMaps).trackMap(tm) (err)
 //@   requires maps != nil && held(maps.l) == 0
@@ -228,6 +264,7 @@ package encrypt
 //@   cut before reflect.ValueOf@1 C09/a-needed-wrapper-was-checked-before-the-copy: old(ef.Wrapper == nil && !tagImplements(tagof(e.Payload), "EventWrapperInfo")) ==> !old(needsKey(effOp(ef.FilterOperationOverrides, PublicClassification))) && !old(needsKey(effOp(ef.FilterOperationOverrides, SensitiveClassification))) && !old(needsKey(effOp(ef.FilterOperationOverrides, SecretClassification)))
 //@   atcall copystructure.Copy#1 C10/the-whole-event-is-copied-not-a-part-of-it: valof(callarg(0)) == e && e == entry(e) && tagof(callarg(0)) == typeid("*eventlogger.Event")
 //@   atcall copystructure.Copy#1 C19/the-shared-event-is-not-read-while-another-pipeline-may-format-it: held(e.l) >= 1
+//@   atcall (*trackedMaps).processUnfiltered@1 C09/the-tracker-that-collected-the-maps-is-the-one-swept: callarg(0) == tm && tm != nil
 //@   atcall NewEventWrapper#1 C16+C19/the-base-wrapper-is-read-under-the-filter-lock: held(ef.l) >= 1
 //@   atcall (*Filter).filterValue@1 C09/an-unsettable-string-payload-is-refused: ufbool("reflect.CanSet", payloadValue)
 //@   atcall (*Filter).filterValue@1 C10/the-walk-is-rooted-at-the-private-copy: e != entry(e) && fresh(e) && (payloadValue == payloadValueOf(e) || payloadValue == uf("reflect.Elem", payloadValueOf(e)))
